@@ -268,6 +268,7 @@ func (h *HttpServer) handleStreamInit(w http.ResponseWriter, r *http.Request) {
 	if info.HasHeader && streamResult.Header != nil {
 		initLogs := callCtx.drainLogs()
 		if err := h.server.writeStreamHeader(&buf, streamResult.Header, initLogs); err != nil {
+			handlerErr = err
 			h.writeHttpError(w, http.StatusInternalServerError, err, nil)
 			return
 		}
@@ -300,6 +301,12 @@ func (h *HttpServer) handleStreamInit(w http.ResponseWriter, r *http.Request) {
 				h.logIPCWriteErr("state-token-batch", info.Name, werr)
 				handlerErr = werr
 			}
+			if tokenErr != nil || callErr != nil {
+				// Without a continuation token the stream cannot be resumed. Say so
+				// in-band: a body that simply ends here reads as a finished stream,
+				// while the dispatch hook is told the call failed.
+				h.logIPCWriteErr("error-batch", info.Name, writeErrorBatch(writer, outputSchema, handlerErr, h.server.serverID, "", h.server.debugErrors))
+			}
 		}
 		if cerr := writer.Close(); cerr != nil {
 			h.logIPCWriteErr("close", info.Name, cerr)
@@ -311,11 +318,13 @@ func (h *HttpServer) handleStreamInit(w http.ResponseWriter, r *http.Request) {
 		// Exchange init — return state token (carry schema for dynamic methods)
 		token, err := h.packMethodCursorToken(info.Name, callID, state, auth)
 		if err != nil {
+			handlerErr = err
 			h.writeHttpError(w, http.StatusInternalServerError, err, nil)
 			return
 		}
 		callToken, err := h.packCallToken(callID, outputSchema, auth, streamID)
 		if err != nil {
+			handlerErr = err
 			h.writeHttpError(w, http.StatusInternalServerError, err, nil)
 			return
 		}
@@ -574,8 +583,8 @@ func (h *HttpServer) handleStreamExchange(w http.ResponseWriter, r *http.Request
 		var schemaErr error
 		outputSchema, schemaErr = deserializeSchema(call.SchemaIPC)
 		if schemaErr != nil {
-			h.writeHttpError(w, http.StatusBadRequest,
-				&RpcError{Type: "RuntimeError", Message: fmt.Sprintf("failed to recover output schema: %v", schemaErr)}, nil)
+			handlerErr = &RpcError{Type: "RuntimeError", Message: fmt.Sprintf("failed to recover output schema: %v", schemaErr)}
+			h.writeHttpError(w, http.StatusBadRequest, handlerErr, nil)
 			return
 		}
 	} else {
@@ -671,6 +680,8 @@ func (h *HttpServer) handleProducerContinuation(ctx context.Context, w http.Resp
 		token, tokenErr := h.packMethodCursorToken(info.Name, callID, state, auth)
 		if tokenErr != nil {
 			err = tokenErr
+			// Same as on /init: no token means the stream cannot go on; report it in-band.
+			h.logIPCWriteErr("error-batch", info.Name, writeErrorBatch(writer, schema, tokenErr, h.server.serverID, "", h.server.debugErrors))
 		} else if werr := writeStateTokenBatch(writer, schema, token, nil); werr != nil {
 			h.logIPCWriteErr("state-token-batch", info.Name, werr)
 			err = werr
